@@ -83,6 +83,10 @@ type c15nKernel struct {
 	listAllFaults   int
 	listRulesFaults int
 	listElemFaults  int
+	// brownout: for as long as injected transaction failures are pending, listings of map/set
+	// elements fail too (each map is listed by its own nft invocation under a shared deadline, so
+	// in a period of nft trouble these are the first calls to time out).
+	brownout bool
 	beforeRun       []func()
 
 	log   []c15nEvent
@@ -101,6 +105,7 @@ type c15nKernel struct {
 	// Apply (its view is then unreliable): such an attempt must not write and counts as a failed
 	// attempt in Felix's retry loop.  A failed ListAll on a plain resync does not.
 	instanceReads     int
+	recreates         int // committed transactions of Felix that deleted and rebuilt the table
 	freshListAllFails int
 	lastReadAt   time.Time
 	// A listing of map elements failed during Felix's last complete read: its view of the
@@ -259,6 +264,20 @@ func (k *c15nKernel) Run(_ context.Context, tx *knftables.Transaction) error {
 		k.record(evs, false, cause, err)
 		return err
 	}
+	for _, e := range evs {
+		if e.Kind == "table" && e.Verb == "delete" {
+			// Felix deleted and rebuilt its whole table in this transaction: whatever other
+			// programs did before, and whatever Felix had failed to read, is gone; the table now
+			// holds exactly what Felix wrote.
+			k.extDirty = false
+			k.mapViewStale = false
+			k.recreates++
+			break
+		}
+	}
+	if len(k.runFaults) == 0 {
+		k.brownout = false
+	}
 	if fault == "fail-after-commit" {
 		// nft was killed (timeout) after the kernel had committed the batch.
 		err := errors.New("injected: nft killed after commit")
@@ -349,6 +368,11 @@ func (k *c15nKernel) ListRules(ctx context.Context, chain string) ([]*knftables.
 func (k *c15nKernel) ListElements(ctx context.Context, objectType, name string) ([]*knftables.Element, error) {
 	k.elemMu.Lock()
 	defer k.elemMu.Unlock()
+	if k.listElemFaults == 0 && k.brownout && len(k.runFaults) > 0 {
+		k.injListFired++
+		k.elemFailedThisRead = true
+		return nil, context.DeadlineExceeded
+	}
 	if k.listElemFaults > 0 {
 		k.listElemFaults--
 		k.injListFired++
